@@ -91,11 +91,14 @@ def fixed_corpus():
 
 def gen_case(seed, shard, i):
     rnd = random.Random("%s-%d-%d-%d" % (ID, seed, shard, i))
-    for _ in range(20):
+    for _ in range(60):
         base, info = G.gen_plain(rnd, products_only=True, allow_take=False,
                                  allow_scalar=(i % 4 == 0), max_ranks=3,
                                  allow_rank0=(i % 5 == 0))
-        if i % 2 == 0:
+        if i % 16 == 15:
+            base, info = G.gen_plain(rnd, products_only=True, allow_take=False, max_ranks=4)
+            s = M.add_double_flatten(rnd, base, info)
+        elif i % 2 == 0:
             force = [None, "two-level", "beneath-shape"][(i // 2) % 3]
             s = M.add_occupancy(rnd, base, info, force=force)
         else:
